@@ -238,3 +238,33 @@ Proof. eexists. split; [vm_compute; reflexivity|]. repeat split. Qed.
 Example ex_exempt : exists r m, build [OSender (B "org.zbus.Srv"); OMember (B "M")] = Ok r /\ local r m = false /\
   known_C21 r m = false /\ matches_spec (fun _ _ => true) r m = true /\ matches r m = Ok true.
 Proof. eexists. exists (sig_msg (B "/a") None []). split; [vm_compute; reflexivity|]. repeat split. Qed.
+
+(* ---- sanity of the specification's own formulation: the examples of the D-Bus specification, and agreement of
+   the string formulation [in_namespace] with the component formulation [in_namespace_c] on all 40 x 40 pairs of
+   object paths with at most three components drawn from {a, ab, b} (a check of the definition, not a theorem
+   about all paths) ---- *)
+Example spec_path_namespace_examples :
+  in_namespace (B "/com/example/foo") (B "/com/example/foo") = true /\
+  in_namespace (B "/com/example/foo") (B "/com/example/foo/bar") = true /\
+  in_namespace (B "/com/example/foo") (B "/com/example/foobar") = false /\
+  in_namespace (B "/") (B "/anything") = true /\ in_namespace (B "/a/b") (B "/a") = false.
+Proof. repeat split. Qed.
+Example spec_arg_path_examples :      (* "arg0path='/aa/bb/'" of the specification *)
+  forallb (path_like_match (B "/aa/bb/")) [B "/"; B "/aa/"; B "/aa/bb/"; B "/aa/bb/cc/"; B "/aa/bb/cc"] = true /\
+  existsb (path_like_match (B "/aa/bb/")) [B "/aa/b"; B "/aa"; B "/aa/bb"] = false.
+Proof. split; reflexivity. Qed.
+Example spec_arg0namespace_examples :  (* "arg0namespace='com.example.backend1'" of the specification *)
+  forallb (in_name_namespace (B "com.example.backend1")) [B "com.example.backend1.foo"; B "com.example.backend1.foo.bar"; B "com.example.backend1"] = true /\
+  in_name_namespace (B "com.example.backend1") (B "com.example.backend2") = false /\
+  in_name_namespace (B "com.example.backend1") (B "com.example.backend10") = false.
+Proof. repeat split. Qed.
+
+Definition small_elems : list bytes := [B "a"; B "ab"; B "b"].
+Definition small_paths : list bytes :=
+  [B "/"] ++ map (fun e => slash :: e) small_elems
+  ++ flat_map (fun e => map (fun f => slash :: e ++ slash :: f) small_elems) small_elems
+  ++ flat_map (fun e => flat_map (fun f => map (fun g => slash :: e ++ slash :: f ++ slash :: g) small_elems) small_elems) small_elems.
+Example in_namespace_formulations_agree :
+  length small_paths = 40 /\
+  forallb (fun ns => forallb (fun p => Bool.eqb (in_namespace ns p) (in_namespace_c ns p)) small_paths) small_paths = true.
+Proof. split; vm_compute; reflexivity. Qed.
